@@ -448,7 +448,7 @@ func codecSuite(seed uint64, tier, outDir string) (*core.Result, error) {
 		"report.enc", "report.dec.len80", "report.dec.wrong-length", "auth.enc", "auth.dec.len148", "auth.dec.wrong-length", "auth.json",
 		"reg.signing", "aserver.enc.loc<=255", "aserver.enc.loc>255", "migration.enc", "smap.enc", "smap.enc.too-long", "smap.dec.ok", "smap.dec.refused",
 		"smap.loc=0", "smap.loc=1", "smap.loc=255", "smap.loc=256", "smap.loc=65535",
-		"stats.enc", "stream.records=0", "stream.records=1", "stream.records=2", "stream.records=3", "stream.cut.refused", "stream.cut.ok", "stream.hostile-count",
+		"stats.enc", "stats.negative-zero", "stream.records=0", "stream.records=1", "stream.records=2", "stream.records=3", "stream.cut.refused", "stream.cut.ok", "stream.hostile-count",
 		"golden", "sign.deterministic", "flip.message", "flip.signature", "flip.key")
 	res.Rule = "field values from boundary tables (0, 1, max, sign bit, subnormal/-0/inf float bit patterns, no NaN) mixed with random; inputs of length K-2..K+2; streams of 0..3 weekly records with 0..2 devices cut at every structural boundary +-1; server maps with 0..k entries and location lengths 0,1,255,256,65535; single-bit flips of message/signature/key against the real glow.Verify; a case is non-trivial when the real codec accepted it, distinct by (class, canonical value)"
 	return res, nil
@@ -951,6 +951,18 @@ func (c *codecRun) stats(scale int) error {
 				var d ccCdev
 				copy(d.key[:], ccGenBytes(r, 32))
 				d.pow, d.imp = ccGenSparse(r, false), ccGenSparse(r, true)
+				if ri == 0 && j == 0 {
+					// the float values an "is it zero" shortcut would mishandle: -0 (default and explicit), the
+					// smallest subnormals of both signs, next to +0
+					switch si % 2 {
+					case 0:
+						d.imp = ccSparse{def: 0, idx: []int{0, 1, 2, 2015}, val: []uint64{0x8000000000000000, 1, 0x8000000000000001, 0x8000000000000000}}
+						c.res.Count("stats.negative-zero")
+					case 1:
+						d.imp = ccSparse{def: 0x8000000000000000, idx: []int{0, 1007}, val: []uint64{0, math.Float64bits(412.5)}}
+						c.res.Count("stats.negative-zero")
+					}
+				}
 				devs = append(devs, d)
 			}
 			tso := uint32(2016 * r.Intn(1000))
@@ -976,6 +988,33 @@ func (c *codecRun) stats(scale int) error {
 			c.noteSigning("AllDeviceStats", "AllDeviceStats", sb, hex.EncodeToString(ser[:len(ser)-64]))
 			if want := 4 + nd*32288 + 4 + 64; len(ser) != want {
 				c.res.Fail("serialized statistics record has the wrong length", "stats-length", map[string]interface{}{"devices": nd, "length": len(ser), "documented": want})
+			}
+			// property oracle on the implementation alone: the record decodes back to the value that was
+			// encoded (floats compared by their bits), and its bytes are the documented layout: the
+			// signed bytes minus the "AllDeviceStats" prefix, then the signature
+			if back, n, err := server.DeserializeStreamAllDeviceStats(ser); err != nil || n != len(ser) {
+				c.res.Fail("a serialized statistics record does not decode", "stats-roundtrip", map[string]interface{}{"devices": nd, "tso": tso})
+			} else {
+				same := back.TimeslotOffset == ads.TimeslotOffset && back.Signature == ads.Signature && len(back.Devices) == len(ads.Devices)
+				what := ""
+				for di := 0; same && di < len(ads.Devices); di++ {
+					a, b := ads.Devices[di], back.Devices[di]
+					if a.PublicKey != b.PublicKey || a.PowerOutputs != b.PowerOutputs {
+						same = false
+					}
+					for k := 0; same && k < len(a.ImpactRates); k++ {
+						if math.Float64bits(a.ImpactRates[k]) != math.Float64bits(b.ImpactRates[k]) {
+							same = false
+							what = fmt.Sprintf(": impact rate %d of device %d was %#016x and decodes as %#016x", k, di, math.Float64bits(a.ImpactRates[k]), math.Float64bits(b.ImpactRates[k]))
+						}
+					}
+				}
+				if !same {
+					c.res.Fail("a statistics record does not decode back to the value that was encoded"+what, "stats-roundtrip", map[string]interface{}{"devices": nd, "tso": tso, "record_hex_prefix": hex.EncodeToString(ser[:64])})
+				}
+			}
+			if pre := len("AllDeviceStats"); len(sb) != pre+len(ser)-64 || !bytes.Equal(sb[pre:], ser[:len(ser)-64]) {
+				c.res.Fail("the persisted bytes of a statistics record differ from the bytes its signature covers (layout: signed fields, then the signature)", "stats-layout", map[string]interface{}{"devices": nd, "tso": tso})
 			}
 			stream = append(stream, ser...)
 			ends = append(ends, len(stream))
